@@ -1,5 +1,17 @@
 #!/usr/bin/env python3-vt
+# C06 - waiters served by priority then waiting time: E2 (CBMC) algebra of the ordering function + E1 scenarios
 import sys, os
 sys.path.insert(0, os.path.dirname(os.path.abspath(__file__)))
-import simcheck
-simcheck.run('C06')
+sys.path.insert(0, os.path.join(os.path.dirname(os.path.abspath(__file__)), '..', 'lib'))
+import simcheck, e2, build
+
+
+def algebra(c):
+    src = os.path.join(build.VERIF, 'cbmc', 'order_algebra.c')
+    for u in ('GUARD', 'HOLDER', 'EVENT', 'PRIOQ', 'DEFAULT'):
+        e2.run_harness(c, c.d, 'order-algebra-' + u.lower(), src, ['UNIT_' + u], unwind=2, link_lib=True)
+    c.assumptions.append('E2: sort keys are never NaN; keys unique and non-zero (documented preconditions)')
+    c.functions |= {'guard_queue_check', 'holder_queue_check', 'heap_order_check', 'compare_func', 'default_order_check'}
+
+
+simcheck.run('C06', extra=algebra, bounds=['E2: all (double, int64, uint64) triples of three entries, no loop (unwind 2 with unwinding assertions)'])
